@@ -125,13 +125,30 @@ def run_config(c, cfg):
         if cfg['kind'] == 'const' and cfg['route'] == 'entry':
             from bioscrape.simulator import py_simulate_model
             with Stream(us) as st:
-                res = py_simulate_model(np.array(times), Model=impl.model, stochastic=True, safe=cfg['safe'], volume=cfg['V'],
+                # the volume number in another spelling of the same value (int, numpy integer, 32-bit float), chosen by the network
+                Vx = cfg['V']
+                k_ = sum(map(ord, sp['name'])) % 4
+                if float(Vx) == int(Vx) and k_ == 1:
+                    Vx = int(Vx)
+                elif float(Vx) == int(Vx) and k_ == 2:
+                    Vx = np.int64(int(Vx))
+                elif k_ == 3:
+                    Vx = np.float32(Vx)            # 0.25, 0.5, 2 and 4 are exact in single precision
+                res = py_simulate_model(np.array(times), Model=impl.model, stochastic=True, safe=cfg['safe'], volume=Vx,
                                         return_dataframe=False)
             return dict(rows=impl.rows(res.py_get_result()), consumed=st.consumed, overrun=st.overrun,
                         vols=[float(z) for z in res.py_get_volume()], divided=bool(res.py_cell_divided()),
                         times=[float(z) for z in res.py_get_timepoints()])
         vobj = None
         if cfg['kind'] == 'growth':
+            if cfg['vol']['type'] == 'growth':
+                # another growing volume object with a different cell cycle is stepped with the same dt first: nothing it computes may
+                # be re-used by the object under test
+                from bioscrape.types import StochasticTimeThresholdVolume
+                decoy = StochasticTimeThresholdVolume(cfg['vol']['cycle'] * 3.7 + 0.4, 5.0, 0.0)
+                with Stream(list(RS.bm_pair(0.0))):
+                    decoy.py_initialize(np.array(impl.x0, dtype=float), impl.model.get_parameter_values(), t0, 1.0)
+                decoy.py_get_volume_step(np.array(impl.x0, dtype=float), impl.model.get_parameter_values(), t0, 1.0, vdt)
             vobj = make_volume(cfg['vol'], impl, t0)[0]
         return e1.run_volume(impl, us, times, vdt, vref, t0=t0, volume_obj=vobj)
 
